@@ -3,6 +3,7 @@
 import ast
 
 from .. import AnalysisError
+from ..flow import Flow
 from ..report import Report
 from ..util import where, norm, calls_to, get_key, names_in, call_name
 from ..variants import V
@@ -319,6 +320,224 @@ def rule5(ctx, rep):
         r.note('accepted thread-side writers: ' + '; '.join(f'{k} ({v})' for k, v in accepted.items()))
 
 
+class _Pending(Flow):
+    """Inv-C (pending => queued).  state: frozenset of facts
+         ('grew', v)        todo of the node in local v grew and v is not yet known to be queued
+         ('in', v, C)       v was stored into the local container C
+         ('from', v, N)     v was located through a name taken from the iterable N
+         ('iter', x, N)     loop variable x ranges over N
+         ('coll', C)        a node with grown todo sits in C, waiting for the queue to be rebuilt from C
+         ('names', N)       a node located through N has grown todo, waiting for organize(N)
+         ('e', text, bool)  truth of a test expression evaluated earlier on this path (flags, repeated comparisons)
+    """
+
+    def __init__(self, prog, f, ops):
+        super().__init__()
+        self.prog = prog
+        self.f = f
+        self.grow = {id(o.node): o for o in ops if o.kind == 'todo' and o.op in wsa.GROW}
+        self.qins = {id(o.node): o for o in ops if o.kind == 'que' and o.op in ('append', 'insert', 'extend', 'add')}
+        self.qreb = {id(o.node): o for o in ops if o.kind == 'que' and o.op == 'rebind'}
+        self.bad = []  # (node, description)
+        self.rebinds = []  # (op, facts)
+        self.names_of = {}
+
+    # -- helpers
+    @staticmethod
+    def _drop(st, pred):
+        return frozenset(x for x in st if not pred(x))
+
+    def _forget_exprs(self, st, name):
+        return self._drop(st, lambda x: x[0] == 'e' and name in self.names_of.get(x[1], ()))
+
+    def _unbind(self, st, v, node):
+        """v is about to be rebound (or the function returns): settle what is owed for it"""
+        if ('grew', v) in st:
+            conts = [x[2] for x in st if x[0] == 'in' and x[1] == v]
+            names = [x[2] for x in st if x[0] == 'from' and x[1] == v]
+            if conts:
+                st = st | {('coll', c) for c in conts}
+            elif names:
+                st = st | {('names', n) for n in names}
+            else:
+                self.bad.append((node, f'todo of the node in "{v}" grew but the node is neither put on the queue nor handed to a queue rebuild on this path'))
+        return self._drop(st, lambda x: x[0] in ('grew', 'in', 'from') and x[1] == v)
+
+    def _src_names(self, e, depth=0):
+        """names the value is built from, following locals through their definitions (pipeline stages)"""
+        out = {n.id for n in ast.walk(e) if isinstance(n, ast.Name)}
+        if depth < 4:
+            for nm in list(out):
+                for d in self.f.own_nodes():
+                    if isinstance(d, ast.Assign) and any(isinstance(t, ast.Name) and t.id == nm for t in d.targets):
+                        out |= self._src_names(d.value, depth + 1)
+        return out
+
+    def _empty_ctor(self, e):
+        return isinstance(e, ast.Call) and not e.args and not e.keywords
+
+    # -- hooks
+    def on_call(self, call, st):
+        o = self.grow.get(id(call))
+        if o is not None and isinstance(o.owner, ast.Name):
+            if not (o.op == 'assign' and self._empty_ctor(o.args[0])):
+                return (st | {('grew', o.owner.id)},)
+        o = self.qins.get(id(call))
+        if o is not None:
+            names = {n.id for a in o.args for n in ast.walk(a) if isinstance(n, ast.Name)}
+            return (self._drop(st, lambda x: x[0] == 'grew' and x[1] in names),)
+        if isinstance(call.func, ast.Attribute) and isinstance(call.func.value, ast.Name) and call.func.attr in ('append', 'add') and len(call.args) == 1 and isinstance(call.args[0], ast.Name):
+            return (st | {('in', call.args[0].id, call.func.value.id)},)
+        sym = self.prog.resolve_in(call.func, self.f)
+        if sym == 'dawgie.pl.schedule.organize' and call.args:
+            t = norm(call.args[0])
+            vs = {x[1] for x in st if x[0] == 'from' and x[2] == t}
+            return (self._drop(st, lambda x: (x[0] == 'names' and x[1] == t) or (x[0] == 'grew' and x[1] in vs)),)
+        return (st,)
+
+    def may_raise(self, call, st):
+        # operations on the work sets, the queue and node attributes raise nothing a handler of this code is written for
+        if id(call) in self.grow or id(call) in self.qins or get_key(call) is not None:
+            return False
+        if isinstance(call.func, ast.Attribute) and call.func.attr in ('set', 'sort', 'append', 'add', 'update'):
+            return False
+        return True
+
+    def on_stmt(self, s, st):
+        if isinstance(s, (ast.Assign, ast.AugAssign)) and id(s) in self.qreb:
+            o = self.qreb[id(s)]
+            facts = shared.rebind_facts(self.prog, o)
+            self.rebinds.append((o, facts))
+            if facts['kind'] in ('filtered', 'superset') and facts['table'][(True, False)] and facts['table'][(True, True)]:
+                srcs = self._src_names(o.args[0])
+                vs = {x[1] for x in st if x[0] == 'in' and x[2] in srcs}
+                return (self._drop(st, lambda x: (x[0] == 'coll' and x[1] in srcs) or (x[0] == 'grew' and x[1] in vs)),)
+            return (st,)
+        if isinstance(s, ast.Assign) and len(s.targets) == 1:
+            t = s.targets[0]
+            if isinstance(t, ast.Subscript) and isinstance(t.value, ast.Name) and isinstance(s.value, ast.Name):
+                return (st | {('in', s.value.id, t.value.id)},)
+            if isinstance(t, ast.Name):
+                st = self._forget_exprs(st, t.id)
+                v = s.value
+                if isinstance(v, ast.Constant) and isinstance(v.value, bool):
+                    return (self._drop(st, lambda x: x[0] == 'e' and x[1] == t.id) | {('e', t.id, v.value)},)
+                if isinstance(v, (ast.Compare, ast.BoolOp, ast.UnaryOp)):
+                    old = self._drop(st, lambda x: x[0] == 'e' and x[1] == t.id)
+                    tr, fa = self.cond(v, {st})
+                    self.names_of.setdefault(t.id, {t.id})
+                    return tuple({self._drop(x, lambda y: y[0] == 'e' and y[1] == t.id) | {('e', t.id, True)} for x in tr} | {self._drop(x, lambda y: y[0] == 'e' and y[1] == t.id) | {('e', t.id, False)} for x in fa})
+                if any(x[0] in ('grew', 'in', 'from') and x[1] == t.id for x in st):
+                    st = self._unbind(st, t.id, s)
+                st = self._drop(st, lambda x: x[0] == 'e' and x[1] == t.id)
+        return (st,)
+
+    def on_test(self, e, st):
+        gk = get_key(e)
+        if gk is None and isinstance(e, ast.Call) and isinstance(e.func, ast.Name) and e.func.id in ('len', 'bool') and e.args:
+            gk = get_key(e.args[0])
+        if gk and gk[1] == 'todo' and isinstance(gk[0], ast.Name):
+            v = gk[0].id
+            return (st,), (self._drop(st, lambda x: x[0] == 'grew' and x[1] == v),)
+        text = e.id if isinstance(e, ast.Name) else norm(e)
+        if not isinstance(e, (ast.Name, ast.Compare)):
+            return (st,), (st,)
+        self.names_of.setdefault(text, {n.id for n in ast.walk(e) if isinstance(n, ast.Name)})
+        if ('e', text, True) in st:
+            return (st,), ()
+        if ('e', text, False) in st:
+            return (), (st,)
+        return (st | {('e', text, True)},), (st | {('e', text, False)},)
+
+    def on_for(self, node, st):
+        tg = [n.id for n in ast.walk(node.target) if isinstance(n, ast.Name)]
+        for v in tg:
+            st = self._unbind(st, v, node)
+            st = self._forget_exprs(st, v)
+            st = self._drop(st, lambda x: x[0] == 'iter' and x[1] == v)
+        if len(tg) == 1:
+            v = tg[0]
+            it = node.iter
+            st = st | {('iter', v, norm(it))}
+            # v ranges over the queue itself: it is queued
+            if any(isinstance(x, (ast.Name, ast.Attribute)) and self.prog.resolve_in(x, self.f) == wsa.QUE for x in ast.walk(it)):
+                st = st | {('in', v, '<que>')}
+            # v located through a name: X.locate(tn) with tn ranging over N
+            if isinstance(it, ast.Call) and isinstance(it.func, ast.Attribute) and it.func.attr == 'locate' and len(it.args) == 1 and isinstance(it.args[0], ast.Name):
+                for x in st:
+                    if x[0] == 'iter' and x[1] == it.args[0].id:
+                        st = st | {('from', v, x[2])}
+        return (st,)
+
+    def finish(self, st, node):
+        for v in sorted({x[1] for x in st if x[0] == 'grew'}):
+            st = self._unbind(st, v, node)
+        for x in st:
+            if x[0] == 'coll' and x[1] != '<que>':
+                self.bad.append((node, f'a node with grown todo was stored in "{x[1]}" but the queue is never rebuilt from it on this path'))
+            if x[0] == 'names':
+                self.bad.append((node, f'nodes located through "{x[1]}" have grown todo but organize({x[1]}) is not reached on this path'))
+
+
+def rule6(ctx, rep):
+    """Inv-C: pending => queued (added after seeded change C01-5: defer() filled todo but let a later, not-due event of
+    the same node decide whether the node goes on the queue; descendants were then released past the pending ancestor,
+    because the release filter only looks at queued ancestors)"""
+    prog = ctx.prog
+    with rep.rule(
+        'R-C01-6',
+        'Inv-C: whenever the todo set of a node grows, the node is on the queue (appended, already iterated from the queue, or part of a queue rebuild that keeps every node with pending targets) when the function returns',
+        floor=4,
+        breaks='a pending upstream algorithm is invisible to the release filter, which only consults queued ancestors: its descendants are released before it has run',
+    ) as r:
+        ops = wsa.all_ops(prog)
+        by = {}
+        for o in ops:
+            by.setdefault(o.func.qname, []).append(o)
+        seen_rebinds = set()
+        for q, fo in sorted(by.items()):
+            grows = [o for o in fo if o.kind == 'todo' and o.op in wsa.GROW and not (o.op == 'assign' and isinstance(o.args[0], ast.Call) and not o.args[0].args and not o.args[0].keywords)]
+            rebs = [o for o in fo if o.kind == 'que' and o.op == 'rebind']
+            if not grows and not rebs:
+                continue
+            f = fo[0].func
+            rep.analysed(f)
+            fl = _Pending(prog, f, fo)
+            out = fl.run(f.node, frozenset())
+            for st in out.normal | out.ret:
+                fl.finish(st, f.node)
+            for o in grows:
+                r.instance()
+            if grows:
+                msgs = sorted({m for _n, m in fl.bad})
+                node = fl.bad[0][0] if fl.bad else grows[0].node
+                r.check(
+                    not fl.bad,
+                    f'{q}:pending-implies-queued',
+                    where(f, node),
+                    f'{len(grows)} growth site(s) of todo; on every path the node is queued afterwards',
+                    f'{q}: ' + '; '.join(msgs),
+                )
+            for o, facts in fl.rebinds:
+                if id(o.node) in seen_rebinds:
+                    continue
+                seen_rebinds.add(id(o.node))
+                r.instance()
+                if facts['kind'] == 'reset':
+                    r.check(facts['rebuilt'], f'{q}:{norm(o.node)[:120]}:keeps-pending', o.where, facts['detail'], f'{q} resets the queue: {facts["detail"]}')
+                elif facts['kind'] == 'unknown':
+                    r.check(False, f'{q}:{norm(o.node)[:120]}:keeps-pending', o.where, '', f'{q} rebinds the queue in a way the analysis cannot follow: {facts["detail"]}')
+                else:
+                    t = facts['table']
+                    r.check(
+                        t[(True, False)] and t[(True, True)],
+                        f'{q}:{norm(o.node)[:120]}:keeps-pending',
+                        o.where,
+                        facts['detail'],
+                        f'{q} rebuilds the queue and drops nodes whose todo is non-empty ({facts["detail"]}): their descendants are released past them',
+                    )
+
+
 def check(ctx):
     rep = Report(
         PID,
@@ -330,7 +549,7 @@ def check(ctx):
         '(2) who-may-write: nothing else grows do/doing, makes task messages or hands them to workers; '
         '(3) Inv-A (executing => queued) is preserved by every removal/rebinding of the queue; '
         '(4) the ancestry attribute is built as a transitive closure (dag.Construct); '
-        '(5) release/reply functions are reactor-atomic. The induction over concrete schedules is argued in DESIGN.md, not computed.',
+        '(5) release/reply functions are reactor-atomic; (6) Inv-C (pending => queued) is preserved by every growth of a todo set and every queue rebuild. The induction over concrete schedules is argued in DESIGN.md, not computed.',
         assumptions=['Twisted runs reactor callbacks one at a time', 'fifo.Unique implements MutableSet semantics'],
     )
     rep.not_decided = ['the induction itself over concrete schedules', 'a user run request racing with schedule.build running in the loader thread']
@@ -339,11 +558,16 @@ def check(ctx):
     rule3(ctx, rep)
     shared.closure_rule(ctx, rep, 'R-C01-4')
     rule5(ctx, rep)
+    rule6(ctx, rep)
     return rep
 
 
 _NJB = ('pl/schedule.py', 'next_job_batch')
 VARIANTS = [
+    V('defer fills todo without queueing', 'B', 'pl/schedule.py', 'defer', 'que.append(t)', 'pass', 'R-C01-6'),
+    V('organize rebuild drops pending nodes', 'B', 'pl/schedule.py', 'organize', "lambda j: j.get('todo') or j.get('doing')", "lambda j: j.get('doing')", 'R-C01-6'),
+    V('build fills todo without organize', 'B', 'pl/schedule.py', 'build', "organize(ans, event=f'New software changeset {rev}')", 'pass', 'R-C01-6'),
+    V('defer iterates its events in sorted order', 'N', 'pl/schedule.py', 'defer', "for p in t.get('period'):", "for p in sorted(t.get('period'), key=str):", None),
     V('drop target-in-doing disjunct', 'B', *_NJB, "target in dependency.get('todo')\n                        or target in dependency.get('doing')", "target in dependency.get('todo')", 'R-C01-1'),
     V('drop __all__-in-doing disjunct', 'B', *_NJB, "or '__all__' in dependency.get('doing')", '', 'R-C01-1'),
     V('drop target == __all__ disjunct', 'B', *_NJB, "target == '__all__'\n                        or '__all__' in dependency.get('todo')", "'__all__' in dependency.get('todo')", 'R-C01-1'),
